@@ -151,6 +151,7 @@ func init() {
 		attributeRefusalReported(w, r, "C07")
 		c07PresentChildModelled(w, r, w.ctxTable())
 		collectedIsUsed(w, r, "C07")
+		wireModelFrame(w, r, "C07", framePackets, nil, map[string]bool{"Packet": true, "Field": true}, "a generator rewrites the packet list / a field list / the kind of a field in the shared model: the targets generated after it (and, for a list rewritten while it is being walked, the generator itself) no longer emit every declared packet and field")
 		c12OptionValidation(w, r, "C07") // a value outside the documented list reaches the type tables as a missing row: empty type names in the output
 		wireTemplateTaint(w, wc, r, "C07", []string{"go", "rust", "java", "python", "cpp", "lua"})
 		wireAssumptions(r)
@@ -167,6 +168,7 @@ func init() {
 		goImportsUsed(w, wc, r, "C17")
 		wireBracketBalance(w, wc, r, "C17", map[string]bool{"test": true})
 		c17FloatSamples(w, r)
+		wireModelFrame(w, r, "C17", framePackets, nil, map[string]bool{"Packet": true, "Field": true}, "a generator rewrites the packet list / a field list in the shared model: the self-tests of the targets generated after it no longer cover every declared packet")
 		wireAssumptions(r)
 	})
 }
